@@ -801,7 +801,8 @@ def _apply_cop(a, name: str, is_set: bool, op, objs) -> None:
 
     k = op[0]
     mk = (lambda xs: set(xs)) if is_set else (lambda xs: list(xs))
-    vals = [objs[int(x)] for x in op[1:]] if k not in ("insert", "setitem", "assignView", "setslice") else None
+    vals = [objs[int(x)] for x in op[1:]] if k not in ("insert", "setitem", "assignView", "setslice", "pop", "delitem",
+                                                      "delslice") else None
     if k == "append":
         getattr(a, name).append(vals[0])
     elif k == "add":
@@ -824,6 +825,23 @@ def _apply_cop(a, name: str, is_set: bool, op, objs) -> None:
         else:
             value = (x for x in xs) if len(xs) % 2 else iter(xs)
         getattr(a, name)[lo:hi] = value
+    elif k == "remove":
+        getattr(a, name).remove(vals[0])
+    elif k == "discard":
+        getattr(a, name).discard(vals[0])
+    elif k == "pop":
+        if len(op) > 1:
+            getattr(a, name).pop(int(op[1]))
+        else:
+            getattr(a, name).pop()
+    elif k == "delitem":
+        del getattr(a, name)[int(op[1])]
+    elif k == "delslice":
+        lo = None if op[1] == "-" else int(op[1])
+        hi = None if op[2] == "-" else int(op[2])
+        del getattr(a, name)[lo:hi]
+    elif k == "clear":
+        getattr(a, name).clear()
     elif k == "assign":
         setattr(a, name, mk(vals))
     elif k == "assignSelf":
